@@ -30,7 +30,7 @@ RULE = ('cases over a fixed corpus of calls (parse of harvested accepted / rejec
         'statements; plan of harvested mindsdb statements and of hand-written predictor / CTE / join / DML queries '
         'under 4 catalog shapes; parse of the production-pair sentences of the live grammars; printing (str) of the trees of harvested statements and of '
         'statements full of names that need back-quotes; render of harvested statements and of '
-        'hand-written statements with target-specific literals to 7 targets; quick = a fixed sub-sample, thorough = '
+        'hand-written statements with target-specific literals to 7 target names and 6 dialect classes given instead of a name; quick = a fixed sub-sample, thorough = '
         'all): (a) schedule = 2/3/4/8 threads x drawn call sequences x sharing mode {none, catalog, render} x '
         'switching {free-running with 1 us switch interval, forced hand-over at drawn line boundaries inside the '
         'library}, (b) history = drawn sequence of 5..30 calls re-using catalog and renderer objects (incl. one predictor-metadata object planned under two predictor namespaces), (c) hashseed = '
@@ -62,7 +62,24 @@ FLOORS = {'quick': {'__nontrivial__': 500, 'schedule:call-overlapped': 2000, 'sc
                        'hashseed:suggestion-message': 1000, 'hashseed:call': 6000}}
 N = {'quick': 120, 'thorough': 2000}
 TARGETS = ('mysql', 'postgres', 'sqlite', 'mssql', 'oracle', 'Snowflake', 'postgresql')
+# the renderer also takes a dialect class instead of a name: the class objects are shared by the whole process
+CLASS_TARGETS = ('class:mysql.dialect', 'class:mysql.pymysql', 'class:mssql.dialect', 'class:postgresql.dialect',
+                 'class:sqlite.dialect', 'class:oracle.dialect')
 HASHSEEDS = ('0', '1', '2', '3', 'random')
+
+
+def _make_renderer(target):
+    from mindsdb_sql.render.sqlalchemy_render import SqlalchemyRender
+    if not target.startswith('class:'):
+        return SqlalchemyRender(target)
+    import importlib
+    pkg, name = target[len('class:'):].split('.')
+    if name == 'dialect':
+        cls = importlib.import_module('sqlalchemy.dialects.' + pkg).dialect
+    else:
+        mod = importlib.import_module(f'sqlalchemy.dialects.{pkg}.{name}')
+        cls = mod.dialect
+    return SqlalchemyRender(cls)
 MODES = ('none', 'catalog', 'render')
 CHILD_TIMEOUT_S = 300          # safety net only (deadlocked child); hitting it is a harness error
 
@@ -251,8 +268,7 @@ class Env:
                 self.cat[t]['integrations'] = self.cat[b]['integrations']
         self.ren = None
         if share_render:
-            from mindsdb_sql.render.sqlalchemy_render import SqlalchemyRender
-            self.ren = {t: SqlalchemyRender(t) for t in TARGETS}
+            self.ren = {t: _make_renderer(t) for t in TARGETS + CLASS_TARGETS}
 
     def catalog(self, name):
         return self.cat[name] if self.cat is not None else CATALOGS[name]()
@@ -260,8 +276,7 @@ class Env:
     def renderer(self, target):
         if self.ren is not None:
             return self.ren[target]
-        from mindsdb_sql.render.sqlalchemy_render import SqlalchemyRender
-        return SqlalchemyRender(target)
+        return _make_renderer(target)
 
     def catalog_image(self):
         return {n: struct(c) for n, c in self.cat.items()} if self.cat is not None else {}
@@ -515,6 +530,8 @@ def build_calls(tier):
         for t in TARGETS:
             add({'op': 'render', 'sql': q, 'dialect': 'mindsdb', 'target': t})
             add({'op': 'render', 'sql': q, 'dialect': 'mindsdb', 'target': t, 'failback': False})
+        for t in CLASS_TARGETS:
+            add({'op': 'render', 'sql': q, 'dialect': 'mindsdb', 'target': t})
     return calls
 
 
